@@ -1804,6 +1804,14 @@ fn run_case(r: &mut Rng, focus: Focus, len: usize) -> World {
     if matches!(focus, Focus::C08) && r.chance(1, 3) {
         backpressure_drop_script(&mut w, r);
     }
+    if matches!(focus, Focus::C06 | Focus::C07) && r.chance(1, 2) {
+        // both applications take what is waiting for them and let go of every stream: nothing may stay behind
+        fair_completion(&mut w, 40);
+        for e in 0..2 {
+            let live: Vec<usize> = (0..w.view[e].handles.len()).filter(|&h| w.view[e].handles[h].alive).collect();
+            for h in live { w.stim(e, &[s("dropstream"), s(h)]); }
+        }
+    }
     completion_phase(&mut w, r, focus);
     w
 }
@@ -2520,6 +2528,42 @@ fn final_checks(w: &mut World) {
     // phase has then delivered every frame, emptied the accept queues and read every stream to its end.
     let settled = (0..2).all(|e| !w.view[e].exited && w.view[e].terminated_by.is_none() && w.view[e].mux_alive && !w.sink_blocked[e] && w.wire[e].is_empty())
         && !w.injected && !w.reused;
+    // the size of each flow table, as the verification hook of penguin-mux reports it (compared with the
+    // model's table in the correspondence run)
+    let mut counts = [usize::MAX; 2];
+    for e in 0..2 {
+        let out = w.stim(e, &[s("flowcount")]);
+        if let Some(n) = out.strip_prefix("count ").and_then(|x| x.split(' ').next()).and_then(|x| x.parse().ok()) { counts[e] = n; }
+    }
+    // C06: the flow table of a connection whose task has finished is empty, and stays empty whatever the
+    // application still calls (Props C06 `ended_connection_table_is_empty`)
+    for e in 0..2 {
+        if w.view[e].exited && counts[e] != usize::MAX {
+            *w.mon.entry("ended-table-empty/judged").or_insert(0) += 1;
+            if counts[e] != 0 {
+                let msg = format!("the connection task of endpoint {} has finished, yet its flow table holds {} entr{}: slots that nothing will ever release (a request made on the ended connection left its slot behind)", NAMES[e], counts[e], if counts[e] == 1 { "y" } else { "ies" });
+                w.fail("C06", "slots-in-ended-table", msg.clone());
+                w.fail("C15", "slots-in-ended-table", msg);
+            }
+        }
+    }
+    if settled {
+        // C06: no sequence of opens and closes leaks slots. With both endpoints running and nothing in flight,
+        // an endpoint whose application holds no stream any more (every handle dropped, nothing waiting in the
+        // accept queue), has no stream or bind request pending or abandoned and holds no bind request of the
+        // peer has an EMPTY flow table.
+        for e in 0..2 {
+            let idle = w.view[e].handles.iter().all(|h| !h.alive) && w.backlog[e] == [0, 0] && w.view[e].opens.is_empty()
+                && !w.cancelled && w.view[e].binds.values().all(|c| *c > 0) && !w.any_reuse && w.quiesced;
+            if idle && counts[e] != usize::MAX {
+                *w.mon.entry("flow-table-empty-when-idle/judged").or_insert(0) += 1;
+                if counts[e] != 0 {
+                    let msg = format!("endpoint {} holds no stream (every handle dropped, accept queue empty), has no request pending, both endpoints are running and nothing is in flight, yet its flow table has {} entr{}: slots leaked", NAMES[e], counts[e], if counts[e] == 1 { "y" } else { "ies" });
+                    w.fail("C06", "slots-leaked", msg);
+                }
+            }
+        }
+    }
     if settled {
         // C07: each successful stream request yields exactly one stream on each endpoint
         let mut ports: Vec<u64> = w.port_handle.keys().copied().collect();
@@ -2983,6 +3027,7 @@ fn attribute(line: &str) -> Vec<&'static str> {
         "write" | "writev" | "wpush" => vec!["C02", "C03", "C04", "C05", "C12"],
         "read" => vec!["C02", "C03", "C04", "C05"],
         "wstate" => vec!["C04", "C12"],
+        "flowcount" => vec!["C06", "C07", "C08", "C10", "C15"],
         "shutdown" => vec!["C05"],
         "dropstream" | "dropmany" => vec!["C06"],
         "batch" => vec!["C02", "C03", "C04", "C05", "C06", "C07", "C08", "C10", "C11", "C12", "C15"],
